@@ -354,7 +354,9 @@ def _rtf_esc(s):
             out.append(ch)
         else:
             o = ord(ch)
-            out.append("\\u%d?" % (o if o < 32768 else o - 65536))
+            units = [o] if o < 0x10000 else [0xD800 + (o - 0x10000) // 1024, 0xDC00 + (o - 0x10000) % 1024]
+            for u in units:
+                out.append("\\u%d?" % (u if u < 32768 else u - 65536))
     return "".join(out)
 
 
@@ -376,3 +378,7 @@ def rtf_doc(blocks) -> bytes:
             out.append(rtf_table(b[1]))
     out.append("}")
     return "".join(out).encode("ascii")
+
+
+def rtf_text(blocks) -> str:
+    return rtf_doc(blocks).decode("ascii")
